@@ -57,8 +57,10 @@ package sourcebundle
 //@   at-call go-slug.Packer.Pack C09.archive.packer: a0 != nil && a0.dereference && !a0.applyTerraformIgnore && len(a0.allowSymlinkTargets) == 0 && a1 == b.rootDir
 //@   ensures C09.archive.packed-once: err == nil ==> $packCalls == 1
 
+//@ macro addrLE(A, B): len(remotePkgStr(A)) < len(remotePkgStr(B)) || (len(remotePkgStr(A)) == len(remotePkgStr(B)) && remotePkgStr(A) <= remotePkgStr(B))
 //@ func (*Bundle).SourceForLocalPath -> (r, err)
 //@   replay bundleLookup:
+//@   replay bundleLookup@C09:
 //@   opt lemmas=bundle
 //@   sweep
 //@   requires pre.b: b != nil
@@ -66,6 +68,11 @@ package sourcebundle
 //@   watch 1: skolem("K", "sourceaddrs.RemotePackage")
 //@   invariant loop1 C18.reverse.inv: (found ==> mapHas(b.remotePackageDirs, pkgAddr) && b.remotePackageDirs[pkgAddr] == localDir)
 //@       && ($seen1 && b.remotePackageDirs[skolem("K", "sourceaddrs.RemotePackage")] == localDir ==> found)
+// the package reported is the least one, by (length of its address, address text), of those stored in the directory:
+// a function of the bundle, not of the order in which the map is visited (C09: same answer to every lookup)
+//@   invariant loop1 C09.reverse.least.inv: $seen1 && b.remotePackageDirs[skolem("K", "sourceaddrs.RemotePackage")] == localDir ==> found && addrLE(pkgAddr, skolem("K", "sourceaddrs.RemotePackage"))
+//@   ensures C09.reverse.least: err == nil && mapHas(b.remotePackageDirs, skolem("K", "sourceaddrs.RemotePackage")) && b.remotePackageDirs[skolem("K", "sourceaddrs.RemotePackage")] == cutBefore(Clean(Rel(b.rootDir, Abs(p))), "/")
+//@       ==> addrLE(unbox(r, "sourceaddrs.RemoteSource").pkg, skolem("K", "sourceaddrs.RemotePackage"))
 //@   ensures C18.reverse.complete: !AbsErr(p) && mapHas(b.remotePackageDirs, skolem("K", "sourceaddrs.RemotePackage")) && safeSeg(b.remotePackageDirs[skolem("K", "sourceaddrs.RemotePackage")])
 //@       && (skolem("SUB", "string") == "" || (validPath(skolem("SUB", "string")) && skolem("SUB", "string") != "."))
 //@       && Abs(p) == Join(Join(b.rootDir, b.remotePackageDirs[skolem("K", "sourceaddrs.RemotePackage")]), skolem("SUB", "string")) ==> err == nil
